@@ -143,7 +143,14 @@ def answerCore (fs : List (String × String)) : E String := do
       let cY := cmpArr tolM Y Ym
       if !cY.ok then return s!"res=FAIL:embedding-is-not-the-projection {describe cY}"
       -- certificate against the FULL feature-space problem
-      let Mf : Mat N N Fix := matOf Ma N N
+      -- LLTSA: the alignment matrix acts on the centred features, A = Fᵀ (H M H) F  (H M H = alignment + shift·H, so the
+      -- pencil (A, Fᵀ H F) has the eigenvectors of the property's (X M Xᵀ, X H Xᵀ) with M the alignment matrix proper)
+      let Mf0 : Mat N N Fix := matOf Ma N N
+      let Mf : Mat N N Fix :=
+        if method == "lltsa" then
+          let HM := DMat.ofFn (Mat.mul (centering : Mat N N Fix) Mf0)
+          (DMat.ofFn (Mat.mul HM.get (centering : Mat N N Fix))).get
+        else Mf0
       let A := fullOf Mf F
       let Bm : Mat N N Fix := match Bdiag with
         | some dg => fun r c => if r = c then dg[r.1]! else 0
